@@ -931,6 +931,7 @@ func run(c *vf.Ctx) {
 	if runNonceSchedules(c, w) {
 		return
 	}
+	longRetries(c, w)
 	all := ops()
 	byName := map[string]*opSpec{}
 	for _, o := range all {
